@@ -137,4 +137,12 @@ def sym_structure(ctx, name, n, lattice, labels=None, n_labels=None):
                                             z3.And(sf(k, c) >= 0, sf(k, c) < 1)), patterns=[sf(k, c)]))
     frac = STensor((n, 3), lambda a, b: sf(to_z3(a), to_z3(b)), 'real')
     labels_t = STensor((n,), lambda a: lab(to_z3(a)), 'int')
-    return SObj('Structure', frac_coords=frac, lattice=lattice, _n=n, labels=labels_t, _sf=sf, _lab=lab, is_ordered=True)
+    # The structure carries its OWN cell (a reference cell, in general not the simulation cell `lattice` of the trajectory): distances taken with
+    # `sites.lattice` or `sites.distance_matrix` are distances in that other cell (assumed pymatgen contract: Structure.distance_matrix =
+    # self.lattice.get_all_distances(self.frac_coords, self.frac_coords)).
+    own_id = 1 + (lattice.get('_id') or 0)
+    om = [[z3.Real(f'{name}_own_lat_m{i_}{j_}') for j_ in range(3)] for i_ in range(3)]
+    # nothing is assumed about that cell (no axioms): whatever is computed in it is unrelated to the simulation cell
+    own = SObj('Lattice', matrix=STensor((3, 3), lambda i_, j_: _tab(om, i_, j_), 'real'), _id=own_id, _m=om, _orient='arbitrary', _gid=own_id)
+    dm = STensor((n, n), lambda a, b: MINDIST(own_id, *([sf(to_z3(a), c_) for c_ in range(3)] + [sf(to_z3(b), c_) for c_ in range(3)])), 'real')
+    return SObj('Structure', frac_coords=frac, lattice=own, distance_matrix=dm, _traj_lattice=lattice, _n=n, labels=labels_t, _sf=sf, _lab=lab, is_ordered=True)
